@@ -369,6 +369,29 @@ func solveMany(cxOf map[*Obligation]*Ctx, obls []*Obligation, opt solveOpts) {
 	for i := 0; i < n; i++ {
 		<-done
 	}
+	// second chance for undecided obligations: alone, with a longer timeout
+	// (a proof that is merely slow under load must not become an alarm)
+	var again []*Obligation
+	for _, o := range obls {
+		if !o.ExpectSat && (o.Status == "timeout" || o.Status == "unknown") {
+			again = append(again, o)
+		}
+	}
+	if len(again) > 0 && len(again) <= 24 {
+		sem2 := make(chan struct{}, 3)
+		done2 := make(chan struct{})
+		for _, o := range again {
+			go func(o *Obligation) {
+				sem2 <- struct{}{}
+				solveAll(cxOf[o], []*Obligation{o}, solveOpts{timeout: 3 * opt.timeout, seed: opt.seed + 1, par: 1, cross: false, workDir: opt.workDir})
+				<-sem2
+				done2 <- struct{}{}
+			}(o)
+		}
+		for range again {
+			<-done2
+		}
+	}
 }
 
 // generateLemma: a pure lemma over spec functions (no code).
